@@ -60,6 +60,13 @@ class Ctx:
         cov['traces_validated_against_impl'] += out.n_obs + out.n_traces - len(out.bad)
         cov['trace_states'] = cov.get('trace_states', 0) + out.states        # states of the trace-validation runs (one per event)
         cov['trace_events'] = cov.get('trace_events', 0) + out.n_events
+        # conformance of WireAnalyze (information, never a verdict: the property does not prescribe an algorithm):
+        # do the real loop-iteration counters equal the counts the model predicts?
+        for c in cases:
+            if c.get('workpred') and c['key'] in getattr(out, 'work', {}):
+                w = out.work[c['key']]
+                k = 'workpred_matches' if [w[0], w[1]] in [list(x) for x in c['workpred']] else 'workpred_mismatches'
+                cov[k] = cov.get(k, 0) + 1
         for c in cases:
             if c['key'] not in self.keys:
                 self.keys.add(c['key'])
